@@ -630,6 +630,8 @@ def run(ctx):
     ctx.run_rule("R13.2", "divider nonce: the random salt reaches the divider reader and gates divider recognition; writer/reader prefix agree [E-FLOW, summaries depth 4]", r13_2, floor=4)
     ctx.run_rule("R13.3", "no unbounded recursion: every cycle of the resolved call graph (lib+bin) is in the confirmed table [E-REC]", r13_3, floor=2)
     ctx.run_rule("R13.7", "replace_crlf: per byte, the only non-copying path is guarded by byte==CR and bytes.get(index+1)==Some(&LF); copies are verbatim; fast path = no CR LF window [E-PATH]", r13_7, floor=6)
+    from . import c07 as _c07
+    ctx.run_rule("R13.8", "the shell expression leaves the parser as written: `$ `/`> ` lines are stored after stripping exactly the prefix, nothing else (shared with C07 R7.2 / C06 R6.10) [E-FLOW]", _c07.line_parser_rules, floor=4)
     ctx.run_rule("R13.4", "guard tables: replace_crlf iff keep_crlf != Some(true); strip_colors iff strip_ansi_escaping == Some(true); Merge iff Combined; stdin and captured streams unmodified [E-PATH, E-FLOW]", r13_4, floor=10)
     ctx.run_rule("R13.6", "Cram script: the user's expression is separated from scrut's footer by an empty line (no continuation into the divider echo) [E-FLOW order]", r13_6, floor=2)
     ctx.run_rule("R13.5", "Cram: per-test exit code and stdout come from the divider reader; outputs.len()==testcases.len() dominates Ok [E-FLOW, E-PATH]", r13_5, floor=3)
